@@ -18,7 +18,9 @@ RULE = ("triples of diagrams with 0..N points (N=60 quick, 300 thorough; sizes 0
         "every run have 100+ points per diagram — one independent, one related), coordinates from lattice/half/dyadic/decimal/"
         "uniform modes with duplicates and diagonal points, one power-of-two scale per triple; one triple in seven is 'large "
         "offset, tiny spread' (a diagram and two successive perturbations by delta, all translated by T = 1e3..1e6 feature "
-        "sizes, delta/T ~ 1e-8); about one triple in six (8 of 60 in every quick run) carries 1-4 points with INFINITE death per diagram, at random rows, "
+        "sizes, delta/T ~ 1e-8); one in seven is 'diagonal cost at an offset' (C02's class: exact diagonal points b == d and points of persistence 2^-13 or "
+        "1e-7..1e-13 of the offset, at offsets -5, -1e3, +-2^30, 2^40, 1e9, ..., against the empty diagram, themselves, a reordering, other diagonal "
+        "points, and the same points with one dropped); about one triple in six (8 of 60 in every quick run) carries 1-4 points with INFINITE death per diagram, at random rows, "
         "with births that differ between the diagrams — the same non-zero number in all three, in two of them (each pair), different numbers, or in one "
         "diagram only: both functions drop such points (C01/C02), so every law must hold with the values of the finite parts; every law of the statement is evaluated for both distances on each triple (an empty diagram of a triple is "
         "handed over in one of the five accepted forms, `vs_empty` uses all five; a quarter of the d(Y,X) evaluations get nested lists); non-trivial = at "
@@ -30,10 +32,15 @@ ASSUMPTIONS = ["domain of the model-level laws (Props/C07Model.lean, `ProperDgm`
                "for every finite point.  The restriction is necessary and the code does not enforce it: on /repo bottleneck([[1,0]],[[1,0]]) "
                "= -0.5 and wasserstein([[1,0]],[[1,0]]) = -1.414 (a point below the diagonal has a negative diagonal cost).  Every diagram "
                "generated here has birth <= death; points below the diagonal are outside the property",
-               "laws on the real code are compared with tolerance min(1e-9*scale*k, 1e-9*|reference value| + 32*eps*scale*k), k = 1 (bottleneck) / "
-               "n+1 (Wasserstein), scale = largest |coordinate| (not floored at 1) — relative to the VALUE, with a rounding floor relative to the "
-               "coordinates, so that 'large offset, tiny spread' triples (distances ~1e-8 of the offset) are checked to ~1e-6 of the value and "
-               "not to 10-100% of it; the Wasserstein cost matrix is np.sqrt of summed squared coordinate differences (since /repo fix "
+               "laws on the real code are compared with tolerance min(1e-9*scale*k, 1e-9*|reference value| + 32*eps*F*k), k = 1 (bottleneck) / "
+               "n+1 (Wasserstein), scale = largest |coordinate| (not floored at 1) — relative to the VALUE, with a rounding floor F*k: F = the EXTENT "
+               "sqrt 2*(largest - smallest coordinate) of the diagrams the law evaluates (a bound on every entry of their cost matrices, invariant "
+               "under translation, 0 for copies of one diagonal point) for symmetric, triangle, reorder_zero, diagonal_points_ignored, vs_empty and "
+               "bottleneck <= Wasserstein — both functions compute every entry from coordinate differences, so only the summation and the solver's "
+               "arithmetic on entries are left; F = largest |coordinate| only for translate_along_diagonal and scales_linearly, where the law itself "
+               "rounds the coordinates.  nonneg_finite is exact (>= 0), reorder_zero demands 0 <= d(X, reordering of X) <= floor (the fixed tree "
+               "returns exactly 0.0), vs_empty demands a value >= 0.  Until the /repo fix of the Wasserstein diagonal cost F was the largest "
+               "|coordinate| for every law (what the rotation by pi/4 needed), under which wasserstein(X, X) = -2.4e-7 at -2^30 passed; the Wasserstein cost matrix is np.sqrt of summed squared coordinate differences (since /repo fix "
                "6c9bac1 — before it, sklearn's expanded formula needed 1e-6 and broke translation invariance at large offsets)",
                "points with infinite death: dropped by both functions with a warning (clauses of C01/C02, proved for the models as C01.inf_dropped / "
                "C02.inf_dropped; the model-level laws of Props/C07Model.lean are stated for raw point lists with non-finite deaths allowed).  The laws are "
@@ -43,7 +50,7 @@ ASSUMPTIONS = ["domain of the model-level laws (Props/C07Model.lean, `ProperDgm`
                "accept on the unchanged tree (np.zeros((0,2)), [], np.array([]), [[]], np.array([[]])) — `vs_empty` is evaluated against all five, both orders",
                "certified pairs: bottleneck value within 1e-9*scale of the optimum certified by C01's cert.opt (bit-exact on these lattice/half/dyadic "
                "inputs on the unchanged tree; a last-bit difference is reported as a correspondence break, not as a failing input); "
-               "Wasserstein value within min(1e-9*scale*rows, 1e-9*|value| + 32 eps*scale*rows) of the optimum of the model's matrix certified by C02's cert.dual (exact rational dual "
+               "Wasserstein value within min(1e-9*scale*rows, 1e-9*|value| + 32 eps*rows*largest entry of the definition's cost matrix) (c02.tol_for) of the optimum of the model's matrix certified by C02's cert.dual (exact rational dual "
                "potentials verified in Lean)",
                "the theorems are about the specification values; that the code computes them is C01/C02"]
 # the theorems that carry clauses of the property statement: every law, for the specification values (C07.lean) and for what
@@ -84,15 +91,34 @@ TOL = 1e-9
 ROUND = 32 * 2.0 ** -52
 
 
-def law_tol(ref, scale, k):
+def law_tol(ref, scale, k, floor_scale=None):
     """tolerance of one law comparison whose reference value is `ref`: 1e-9 relative to the VALUE plus a rounding-level term
-    32*eps*scale*k (scale = largest |coordinate| of the triple, k = 1 for bottleneck, number of points + 1 for the
-    Wasserstein sum), never more than the former 1e-9*scale*k.  On 'large offset, tiny spread' triples (distances ~ 1e-8 of
-    the offset) this is ~1e-6 of the value; 1e-9*scale*k was 10-100% of it, which let 'returns 0.0' pass every law."""
+    32*eps*floor_scale*k (k = 1 for bottleneck, number of points + 1 for the Wasserstein sum), never more than the former
+    1e-9*scale*k (scale = largest |coordinate| of the triple).
+    floor_scale is
+      * `extent` of the diagrams the law evaluates (sqrt 2 * (largest - smallest finite coordinate): a bound on every entry of
+        their cost matrices, invariant under translation, 0 for copies of one diagonal point) for the laws that hand the
+        diagrams over AS THEY ARE — symmetric, triangle, reorder_zero, diagonal_points_ignored, vs_empty, bottleneck <=
+        Wasserstein: both functions compute every matrix entry from coordinate DIFFERENCES (Wasserstein's diagonal cost
+        (d - b)/sqrt 2 too, since the /repo fix of the diagonal cost), so nothing rounds at the size of the coordinates;
+        what is left is the summation and the solver's arithmetic on entries;
+      * the largest |coordinate| (the default) for translate_along_diagonal and scales_linearly, where the law itself
+        rounds the COORDINATES (X + t, X * lam) before the functions see them.
+    Until that fix the floor was 32*eps*largest |coordinate|*k for every law — the error the rotation by pi/4 left in each
+    Wasserstein diagonal cost — under which wasserstein(X, reordering of X) = -2.4e-7 at coordinates near -2^30 and a
+    diagonal cost off by 1e-3 of its value passed reorder_zero and vs_empty."""
     ref = abs(float(ref))
+    fs = scale if floor_scale is None else min(scale, floor_scale)
     if not math.isfinite(ref):
         return TOL * scale * k
-    return min(TOL * scale * k, TOL * ref + ROUND * scale * k)
+    return min(TOL * scale * k, TOL * ref + ROUND * fs * k)
+
+
+def extent(*dgms):
+    """sqrt 2 * (largest - smallest finite coordinate) of the given diagrams: every distance between two of their points
+    and every diagonal cost is at most this"""
+    xs = [float(x) for D in dgms for p in D for x in p if math.isfinite(x)]
+    return math.sqrt(2.0) * (max(xs) - min(xs)) if xs else 0.0
 
 
 LAWS = ("symmetric", "nonneg_finite", "triangle", "reorder_zero", "diagonal_points_ignored", "translate_along_diagonal",
@@ -118,7 +144,9 @@ def eval_laws(name, X, Y, Z, ing, ctx=None, out=None):
     fx, fy = A(X), A(Y)                        # float64 (n,2) arrays for the arithmetic on the inputs
     scale = max(common.maxabs(X), common.maxabs(Y), common.maxabs(Z), 1e-300)
     k = 1 if name == "bn" else len(X) + len(Y) + len(Z) + 1
-    tol = lambda ref: law_tol(ref, scale, k)
+    tolc = lambda ref: law_tol(ref, scale, k)                      # laws that round the coordinates themselves
+    ext = extent(X, Y, Z)
+    tol = lambda ref, e=ext: law_tol(ref, scale, k, e)             # laws on the diagrams as they are
     bad, notes = [], {}
 
     def law(what, thunk):
@@ -151,14 +179,17 @@ def eval_laws(name, X, Y, Z, ing, ctx=None, out=None):
         notes.setdefault("triangle", "d(X,Z) = %r > d(X,Y) + d(Y,Z) = %r + %r" % (dxz, dxy, dyz))
     if len(X):
         perm = fx[np.random.RandomState(ing["perm_seed"]).permutation(len(X))]
-        law("reorder_zero", lambda: f(fx, perm) <= tol(0.0))
+        # 0 <= d(X, reordering of X) <= room for the solver: every point has a copy at distance exactly 0 (on the fixed tree
+        # both functions return exactly 0.0 here on every input tried; a NEGATIVE value fails whatever its size)
+        law("reorder_zero", lambda: 0 <= f(fx, perm) <= tol(0.0, extent(X)))
     diag = np.array([[t, t] for t in ing["diag"]])
-    law("diagonal_points_ignored", lambda: abs(f(np.vstack([fx, diag]), ay) - dxy) <= tol(dxy)
-        and abs(f(ax, np.vstack([fy, diag[:1]])) - dxy) <= tol(dxy))
+    ed = extent(X, Y, [[t, t] for t in ing["diag"]])               # the added diagonal points enter the matrix the solver sees
+    law("diagonal_points_ignored", lambda: abs(f(np.vstack([fx, diag]), ay) - dxy) <= tol(dxy, ed)
+        and abs(f(ax, np.vstack([fy, diag[:1]])) - dxy) <= tol(dxy, ed))
     t = ing["t"]
-    law("translate_along_diagonal", lambda: abs(f(fx + t, fy + t) - dxy) <= tol(dxy) * 4)
+    law("translate_along_diagonal", lambda: abs(f(fx + t, fy + t) - dxy) <= tolc(dxy) * 4)
     lam = ing["lam"]
-    law("scales_linearly", lambda: abs(f(fx * lam, fy * lam) - lam * dxy) <= tol(dxy) * lam)
+    law("scales_linearly", lambda: abs(f(fx * lam, fy * lam) - lam * dxy) <= tolc(dxy) * lam)
     def closed_form(g):
         """value against the empty diagram: max persistence / 2 resp. total persistence / sqrt 2 of the points that count
         (a point with infinite death is dropped by both functions — C01/C02 — so it contributes nothing)"""
@@ -174,7 +205,7 @@ def eval_laws(name, X, Y, Z, ing, ctx=None, out=None):
                 g_ = fx[:25]
                 w_ = closed_form(g_)
             for v in (f(g_, mk()), f(mk(), g_)):
-                if not abs(v - w_) <= tol(w_):
+                if not (abs(v - w_) <= tol(w_, extent(g_.tolist())) and v >= 0):
                     notes["vs_empty"] = "against %s: %r, expected %r" % (label, float(v), float(w_))
                     return False
         return True
@@ -299,6 +330,18 @@ def run(ctx):
                     X, Y = Y, X
                 g = 1.0
                 ctx.count("triples_large_offset_tiny_spread")
+            elif it % 7 == 4:                       # diagonal costs far from the origin (c02.gen_diag_pair): exact diagonal points
+                # and points of tiny persistence at offsets -5 .. -2^30 .. 2^40, against the empty diagram, themselves, a
+                # reordering, other diagonal points; Z = the same points with one dropped.  nonneg_finite, reorder_zero and
+                # vs_empty on these are what the rotation by pi/4 (the /repo fix of the diagonal cost) violated
+                pc = c02.gen_diag_pair(ctx, min(big, 12))
+                X, Y = sorted((pc["dgm1"], pc["dgm2"]), key=len, reverse=True)
+                Z = [list(p) for p in X][1:] if r.random() < 0.7 else []
+                r.shuffle(Z)
+                if r.random() < 0.3:
+                    X, Y = Y, X
+                g = 1.0
+                ctx.count("triples_diagonal_cost_at_offset")
             elif it % 3 == 0:
                 X, Y, Z = (gen_dgm(ctx, big, mode) for _ in range(3))
                 ctx.count("triples_independent")
@@ -511,8 +554,9 @@ MANIFEST = {
             "three diagrams, different births: they are dropped, so every law must still hold), under several hash seeds.",
     "note": "Trusted: Lean kernel + Mathlib (propext/Classical.choice/Quot.sound); C01/C02 for 'code value = specification value' "
             "(external solvers hopcroftkarp / scipy LSA are contracts certified per run there; re-certified here at the large sizes); float "
-            "rounding is outside the theorems ([T] law stream with stated tolerances: min(1e-9*largest |coordinate|*k, 1e-9*|value| + 32 eps*largest "
-            "|coordinate|*k), k = 1 for bottleneck, the number of points + 1 for Wasserstein).  Domain: diagrams with birth <= death "
+            "rounding is outside the theorems ([T] law stream with stated tolerances: min(1e-9*largest |coordinate|*k, 1e-9*|value| + 32 eps*F*k), "
+            "k = 1 for bottleneck, the number of points + 1 for Wasserstein, F = the extent sqrt 2*(largest - smallest coordinate) of the diagrams the law "
+            "evaluates, and the largest |coordinate| only for the two laws that translate / scale the coordinates; non-negativity exact, also in reorder_zero and vs_empty).  Domain: diagrams with birth <= death "
             "(`ProperDgm` in Props/C07Model.lean, see ASSUMPTIONS); the code does not reject points below the diagonal and several laws are "
             "false there.  A violation record stores the random ingredients of the law evaluation (permutation seed, diagonal points, shift, "
             "factor, empty-diagram forms) and `replay` re-evaluates every law through the same function `eval_laws`.",
